@@ -6,8 +6,10 @@ From Coq Require Import String Ascii List NArith ZArith QArith Bool Lia.
 From Sylt Require Import Syntax.Resolved.
 From Sylt Require Sem.Values Sem.Runtime Sem.SyltSem.
 From Sylt Require Import Back.IR Back.Emit Back.ScopeProofs.
-From Sylt Require Import Pres.EmitAst Pres.EmitRel Pres.Names Pres.LuaFuel Pres.LuaEv Pres.Preamble Pres.Frag.
-From Sylt Require Import Pres.SimDefs Pres.SimOps Pres.SimVals Pres.SimExpr.
+From Sylt Require Import Pres.EmitAst Pres.EmitRel Pres.Names Pres.LuaFuel Pres.LuaEv Pres.Preamble.
+From Sylt Require Import Pres.Frag.
+From Sylt Require Import Pres.SimDefs Pres.SimOps Pres.SimVals.
+From Sylt Require Import Pres.SimExpr.
 From Sylt Require Import Lua.LuaAst Lua.LuaMap Lua.LuaNum Lua.LuaProofs Lua.LuaCore.
 Import ListNotations.
 Local Open Scope N_scope.
@@ -22,10 +24,14 @@ Ltac inj_code := match goal with H : (_, _) = (_, _) |- _ => injection H as <- <
 
 Section Sim.
 Variable pv : N.
+Variable sv : N.
 Variable bound : N.
 Variable u : counts.
 
-Lemma L_expr_zero : L_expr pv u O.
+Lemma cshape_nil' l c c' : c <= c' -> cshape u l [] [] l c c'.
+Proof. intros H. eapply cshape_widen; [apply (cshape_nil u l c) | lia | exact H]. Qed.
+
+Lemma L_expr_zero : L_expr pv sv bound u O.
 Proof. intros k x ctx c code v c' sc l H. discriminate. Qed.
 
 Lemma used_plain (l : alut) t (ss : list stmt) : snd (if 0 <? count_of u t then (ss, l) else ([], l)) = l.
@@ -70,9 +76,179 @@ Proof.
   apply (cshape_plain u l2 (IAssign t vb) c c'); [lia | reflexivity | reflexivity | apply used_plain].
 Qed.
 
-Lemma L_expr_succ g : L_expr pv u g -> L_expr pv u (S g).
+
+(* ---- unfolding equations of the fragment predicate (cbn would expose the raw mutual fixpoint) ---- *)
+Lemma frag_expr_if k sc brs sp : frag_expr pv sv bound (S k) sc (EIf brs sp) = frag_branches pv sv bound k sc brs.
+Proof. reflexivity. Qed.
+Lemma frag_branches_some k sc cond body sp brs :
+  frag_branches pv sv bound (S k) sc (IfBranch (Some cond) body sp :: brs) =
+  (frag_expr pv sv bound k sc cond && is_some (frag_stmts pv sv bound k sc body) && frag_branches pv sv bound k sc brs)%bool.
+Proof. reflexivity. Qed.
+Lemma frag_branches_none k sc body sp brs :
+  frag_branches pv sv bound (S k) sc (IfBranch None body sp :: brs) =
+  match brs with [] => is_some (frag_stmts pv sv bound k sc body) | _ => false end.
+Proof. destruct brs; reflexivity. Qed.
+Lemma frag_stmts_cons k sc s ss :
+  frag_stmts pv sv bound (S k) sc (s :: ss) =
+  match frag_stmt pv sv bound k sc s with Some sc' => frag_stmts pv sv bound k sc' ss | None => None end.
+Proof. reflexivity. Qed.
+Lemma frag_stmt_block k sc ss sp :
+  frag_stmt pv sv bound (S k) sc (SBlock ss sp) =
+  match frag_stmts pv sv bound k sc ss with Some _ => Some sc | None => None end.
+Proof. reflexivity. Qed.
+Lemma frag_stmt_sexpr k sc value sp :
+  frag_stmt pv sv bound (S k) sc (SStatementExpression value sp) = if frag_expr pv sv bound k sc value then Some sc else None.
+Proof. reflexivity. Qed.
+Lemma frag_stmt_loop k sc cond body sp :
+  frag_stmt pv sv bound (S k) sc (SLoop cond body sp) =
+  if (noexit_expr k cond && frag_expr pv sv bound k sc cond && is_some (frag_stmts pv sv bound k sc body))%bool then Some sc else None.
+Proof. reflexivity. Qed.
+Lemma frag_stmt_assign k sc op v vsp value sp :
+  frag_stmt pv sv bound (S k) sc (SAssignment op (ERead v vsp) value sp) =
+  if (assign_op op && memN v sc && frag_expr pv sv bound k sc value)%bool then Some sc else None.
+Proof. reflexivity. Qed.
+Lemma frag_stmt_def_eq k sc name var kd t value sp :
+  is_function value = false ->
+  frag_stmt pv sv bound (S k) sc (SDefinition name var kd t value sp) =
+  if (fresh_id pv sv bound sc var && frag_expr pv sv bound k (var :: sc) value)%bool then Some (var :: sc) else None.
+Proof. destruct value; try discriminate; reflexivity. Qed.
+
+Lemma definition_nonfun f var value ctx :
+  is_function value = false ->
+  definition (S f) var value ctx = (r <- expression f value ctx ;; ret ([IDefine var] ++ fst r ++ [IAssign var (snd r)])).
+Proof. destruct value; try discriminate; reflexivity. Qed.
+
+Lemma frag_stmt_def k sc name var kd t value sp sc' :
+  frag_stmt pv sv bound (S k) sc (SDefinition name var kd t value sp) = Some sc' ->
+  is_function value = false /\ fresh_id pv sv bound sc var = true /\ frag_expr pv sv bound k (var :: sc) value = true /\ sc' = var :: sc.
 Proof.
-  intros IH k x ctx c code v c' sc l Hlow Hfrag.
+  intros H. assert (Hnf : is_function value = false) by (destruct value; try reflexivity; discriminate H).
+  rewrite (frag_stmt_def_eq _ _ _ _ _ _ _ _ Hnf) in H.
+  destruct (fresh_id pv sv bound sc var); [|discriminate H]. cbn [andb] in H.
+  destruct (frag_expr pv sv bound k (var :: sc) value); [|discriminate H]. inversion H. auto.
+Qed.
+
+Definition L_stmt (g : nat) : Prop :=
+  forall k s ctx c code c' sc sc' l,
+    statement g s ctx c = Ok (code, c') -> frag_stmt pv sv bound k sc s = Some sc' ->
+    exists b l', cshape u l code b l' c c'.
+
+Definition L_stmts (g : nat) : Prop :=
+  forall k ss ctx c cs c' sc sc' l,
+    mapM (fun s => statement g s ctx) ss c = Ok (cs, c') -> frag_stmts pv sv bound k sc ss = Some sc' ->
+    exists b l', cshape u l (concat cs) b l' c c'.
+
+Lemma L_stmts_of g : L_stmt g -> L_stmts g.
+Proof.
+  intros IH k ss. revert k. induction ss as [|s ss IHss]; intros k ctx c cs c' sc sc' l Hm Hf.
+  - destruct (mapM_nil_ok _ _ _ _ Hm) as [-> ->]. eexists _, _. apply cshape_nil.
+  - destruct k as [|k]; [discriminate|]. rewrite frag_stmts_cons in Hf.
+    destruct (frag_stmt pv sv bound k sc s) as [sc1|] eqn:Hs; [|discriminate Hf].
+    apply mapM_cons_ok in Hm as (y & c1 & ys & Hy & Hys & ->).
+    destruct (IH k s ctx c y c1 sc sc1 l Hy Hs) as (b1 & l1 & Hs1).
+    destruct (IHss k ctx c1 ys c' sc1 sc' l1 Hys Hf) as (b2 & l2 & Hs2).
+    eexists _, _. cbn [concat]. eapply cshape_app; eassumption.
+Qed.
+
+Lemma frag_stmts_app k a : forall sc b sc',
+  frag_stmts pv sv bound k sc (a ++ b) = Some sc' ->
+  exists sc1 k', frag_stmts pv sv bound k sc a = Some sc1 /\ frag_stmts pv sv bound k' sc1 b = Some sc'.
+Proof.
+  revert k. induction a as [|s a IH]; intros k sc b sc' H.
+  - exists sc, k. split; [|exact H]. destruct k; [discriminate | reflexivity].
+  - destruct k as [|k]; [discriminate|]. cbn [app] in H. rewrite frag_stmts_cons in *.
+    destruct (frag_stmt pv sv bound k sc s) as [sc0|]; [|discriminate].
+    apply IH in H. exact H.
+Qed.
+
+(* two-armed if, and the loop shape *)
+Lemma cshape_ifelse l a ct bt l1 ce be l2 c c' :
+  cshape u l ct bt l1 c c' -> cshape u l1 ce be l2 c c' ->
+  cshape u l (IIf a :: ct ++ IElse :: ce ++ [IEnd]) [SIf (aexpand l a) bt be] l2 c c'.
+Proof.
+  intros (H1 & Hc1 & Hf1 & _) (H2 & Hc2 & Hf2 & _).
+  split; [apply (Em_ifelse u l a ct bt l1 ce be l2 [] [] l2 H1 H2 (Em_nil u l2))|].
+  split; [exact Hc1|]. split; [|repeat constructor].
+  intros w Hw. rewrite Hf2 by exact Hw. apply Hf1. exact Hw.
+Qed.
+
+Lemma cshape_loop l lb cb bb l1 c c' :
+  cshape u l cb bb l1 c c' ->
+  cshape u l (ILoop :: ILabel lb :: cb ++ [IEnd]) [SWhile ETrue (SLabel (fmt_label lb) :: bb)] l1 c c'.
+Proof.
+  intros (H & Hc & Hf & _). split; [|split; [exact Hc | split; [exact Hf | repeat constructor]]].
+  apply (Em_loop u l (ILabel lb :: cb) (SLabel (fmt_label lb) :: bb) l1 [] [] l1); [|apply Em_nil].
+  apply (Em_op u l (ILabel lb) cb bb l1 eq_refl). exact H.
+Qed.
+
+(* the block of an if-branch / function-like block whose last expression is assigned to `out` *)
+Lemma L_eblock g : L_expr pv sv bound u g -> L_stmts g ->
+  forall k out body ctx c code c' sc sc' l,
+    lower_eblock (statement g) (expression g) out body ctx c = Ok (code, c') ->
+    frag_stmts pv sv bound k sc body = Some sc' ->
+    exists b l', cshape u l code b l' c c'.
+Proof.
+  intros IHe IHs k out body ctx c code c' sc sc' l Hlow Hfrag. unfold lower_eblock in Hlow.
+  assert (Hwhole : lower_list (statement g) body ctx c = Ok (code, c') -> exists b l', cshape u l code b l' c c').
+  { intros H. apply lower_list_ok in H as (cs & Hm & ->). eapply IHs; eassumption. }
+  destruct (rev body) as [|last init_rev] eqn:Hrev; [apply Hwhole; exact Hlow|].
+  destruct last; try (apply Hwhole; exact Hlow).
+  assert (Hbody : body = rev init_rev ++ [SStatementExpression value sp]) by (rewrite <- (rev_involutive body), Hrev; reflexivity).
+  rewrite Hbody in Hfrag. clear Hwhole Hbody Hrev.
+  mon Hlow. apply lower_list_ok in Hm as (cs & Hmi & ->).
+  destruct (frag_stmts_app _ _ _ _ _ Hfrag) as (sc1 & k' & Hfi & Hfl).
+  destruct k' as [|k']; [discriminate|]. rewrite frag_stmts_cons in Hfl.
+  destruct k' as [|k'']; [discriminate|]. rewrite frag_stmt_sexpr in Hfl.
+  destruct (frag_expr pv sv bound k'' sc1 value) eqn:Hfe; [|discriminate Hfl].
+  destruct a0 as [cv rv]. cbn [fst snd] in *.
+  destruct (IHs k (rev init_rev) ctx c cs c0 sc sc1 l Hmi Hfi) as (b1 & l1 & Hs1).
+  destruct (IHe k'' value ctx c0 cv rv c' sc1 l1 Hm0 Hfe) as (b2 & l2 & Hs2 & _).
+  pose proof Hs2 as (_ & ? & _).
+  eexists _, _. eapply cshape_app; [exact Hs1|]. eapply cshape_app; [exact Hs2|].
+  apply (cshape_plain u l2 (IAssign out rv) c' c'); [lia | reflexivity | reflexivity | apply used_plain].
+Qed.
+
+Lemma map_const_snoc {A B} (x : B) (l : list A) : map (fun _ => x) l ++ [x] = x :: map (fun _ => x) l.
+Proof. induction l as [|a l IH]; cbn; [reflexivity | rewrite IH; reflexivity]. Qed.
+
+Lemma L_branches g : L_expr pv sv bound u g -> L_stmts g ->
+  forall brs k out ctx c codes c' sc l,
+    mapM (lower_if_branch (statement g) (expression g) out ctx) brs c = Ok (codes, c') ->
+    frag_branches pv sv bound k sc brs = true ->
+    exists b l', cshape u l (concat codes ++ map (fun _ => IEnd) brs) b l' c c'.
+Proof.
+  intros IHe IHs. induction brs as [|[[cond|] body bsp] brs IH]; intros k out ctx c codes c' sc l Hm Hf.
+  - destruct (mapM_nil_ok _ _ _ _ Hm) as [-> ->]. eexists _, _. apply cshape_nil.
+  - destruct k as [|k]; [discriminate|]. rewrite frag_branches_some in Hf. frag_split Hf.
+    destruct (frag_stmts pv sv bound k sc body) as [scb|] eqn:Hfb; [|discriminate Hfr0].
+    apply mapM_cons_ok in Hm as (y & c1 & ys & Hy & Hys & ->).
+    unfold lower_if_branch in Hy. mon Hy. destruct a as [code_c vc]. cbn [fst snd] in *.
+    destruct (IHe k cond ctx c code_c vc c0 sc l Hm Hf) as (bc & l1 & Hsc & _).
+    destruct (L_eblock g IHe IHs k out body ctx c0 a0 c1 sc scb l1 Hm0 Hfb) as (bb & l2 & Hsb).
+    destruct (IH k out ctx c1 ys c' sc l2 Hys Hfr) as (br & l3 & Hsr).
+    pose proof Hsc as (_ & ? & _). pose proof Hsb as (_ & ? & _). pose proof Hsr as (_ & ? & _).
+    eexists _, _. cbn [concat map].
+    match goal with |- cshape _ _ ?code _ _ _ _ =>
+      replace code with (code_c ++ (IIf vc :: a0 ++ IElse :: (concat ys ++ map (fun _ : ifbranch => IEnd) brs) ++ [IEnd])) end.
+    + eapply cshape_app'; [eapply cshape_widen; [exact Hsc | lia | lia]|].
+      eapply cshape_ifelse; (eapply cshape_widen; [eassumption | lia | lia]).
+    + rewrite <- (map_const_snoc IEnd brs). cbn [app]. rewrite <- !app_assoc. cbn [app]. rewrite <- !app_assoc. reflexivity.
+  - destruct k as [|k]; [discriminate|]. rewrite frag_branches_none in Hf. destruct brs; [|discriminate Hf].
+    destruct (frag_stmts pv sv bound k sc body) as [scb|] eqn:Hfb; [|discriminate Hf].
+    apply mapM_cons_ok in Hm as (y & c1 & ys & Hy & Hys & ->). destruct (mapM_nil_ok _ _ _ _ Hys) as [-> <-].
+    unfold lower_if_branch in Hy. mon Hy. fresh_all.
+    set (l1 := snd (aiis u l c ETrue)).
+    match goal with H : lower_eblock _ _ _ _ _ _ = Ok (?a0, _) |- _ =>
+      destruct (L_eblock g IHe IHs k out body ctx (c + 1) a0 c' sc scb l1 H Hfb) as (bb & l2 & Hsb) end.
+    pose proof Hsb as (_ & ? & _).
+    eexists _, _. cbn [concat map app]. rewrite app_nil_r.
+    eapply cshape_cons'; [eapply (cshape_iis u l (IBool c true) c ETrue c c'); [lia | reflexivity | reflexivity]|].
+    apply cshape_if. eapply cshape_widen; [exact Hsb | lia | lia].
+Qed.
+
+Lemma L_expr_succ g : L_expr pv sv bound u g -> L_stmts g -> L_expr pv sv bound u (S g).
+Proof.
+  intros IH IHs k x ctx c code v c' sc l Hlow Hfrag.
   destruct k as [|k]; [discriminate|].
   destruct x; try discriminate Hfrag; cbn [frag_expr] in Hfrag.
   - (* ERead *)
@@ -155,6 +331,14 @@ Proof.
     all: pose proof Hs1 as (_ & ? & _).
     all: eexists _, _; (split; [|lia]); (eapply cshape_app; [exact Hs1|]).
     all: eapply (cshape_iis u l1 _ c0); [lia | reflexivity | reflexivity].
+  - (* EIf *)
+    change (frag_branches pv sv bound k sc branches = true) in Hfrag.
+    cbn [expression] in Hlow. mon Hlow. fresh_all. inj_code.
+    destruct (L_branches g IH IHs branches k c ctx (c + 1) a0 c' sc l Hm0 Hfrag) as (b1 & l1 & Hs1).
+    pose proof Hs1 as (_ & ? & _).
+    eexists _, _. split; [|lia].
+    eapply cshape_cons'; [apply (cshape_plain u l (IDefine c) c c'); [lia | reflexivity | reflexivity | apply used_plain]|].
+    eapply cshape_widen; [exact Hs1 | lia | lia].
   - (* EInt *)
     cbn [expression] in Hlow. mon Hlow. fresh_all. inj_code.
     eexists _, _. split; [|lia]. eapply (cshape_iis u l _ c); [lia | reflexivity | reflexivity].
@@ -163,6 +347,99 @@ Proof.
     eexists _, _. split; [|lia]. eapply (cshape_iis u l _ c); [lia | reflexivity | reflexivity].
 Qed.
 
-Theorem L_expr_all g : L_expr pv u g.
-Proof. induction g; [apply L_expr_zero | apply L_expr_succ; assumption]. Qed.
+
+Lemma L_stmt_succ g : (forall g', (g' <= g)%nat -> L_expr pv sv bound u g') -> L_stmts g -> L_stmt (S g).
+Proof.
+  intros IHe IHs k s ctx c code c' sc sc' l Hlow Hfrag.
+  destruct k as [|k]; [discriminate|].
+  destruct s; try discriminate Hfrag.
+  - (* SAssignment *)
+    destruct target; try discriminate Hfrag. rewrite frag_stmt_assign in Hfrag.
+    destruct (assign_op op && memN var sc && frag_expr pv sv bound k sc value)%bool eqn:Hc; [|discriminate Hfrag].
+    frag_split Hc.
+    cbn [statement] in Hlow. mon Hlow. fresh_all. apply ret_ok in Hm0 as [<- <-]. cbn beta iota in Hlow. mon Hlow.
+    destruct a as [code_v rv]. cbn [fst snd app] in *.
+    destruct (IHe g (Nat.le_refl g) k value ctx (c + 1) code_v rv c0 sc l Hm Hfr) as (b1 & l1 & Hs1 & ? & ?).
+    pose proof Hs1 as (_ & ? & _).
+    assert (Hop : c' = c0 /\ simple_op a0 = true /\
+              ((exists ex, forall l0, agen_one u l0 a0 = aiis u l0 c (ex l0)) \/ (not_label_op a0 = true /\ forall l0, snd (agen_one u l0 a0) = l0))).
+    { destruct op; try discriminate Hc; apply ret_ok in Hm0 as [<- <-]; (split; [reflexivity|]); (split; [reflexivity|]).
+      - right. split; [reflexivity|]. intros l0. apply used_plain.
+      - left. exists (fun l0 => acall "__ADD" [aexpand l0 var; aexpand l0 rv]). intros l0. reflexivity.
+      - left. exists (fun l0 => abin OSub (aexpand l0 var) (aexpand l0 rv)). intros l0. reflexivity.
+      - left. exists (fun l0 => abin OMul (aexpand l0 var) (aexpand l0 rv)). intros l0. reflexivity. }
+    destruct Hop as (-> & Hsimple & Hkind).
+    destruct Hkind as [(ex & Hex) | (Hnl & Hsame)]; (eexists _, _; eapply cshape_app'; [eapply cshape_widen; [exact Hs1 | lia | lia]|]).
+    + eapply cshape_cons'; [eapply (cshape_iis u l1 a0 c (ex l1) c c0); [lia | exact Hsimple | apply Hex]|].
+      apply (cshape_plain u _ (IAssign var c) c c0); [lia | reflexivity | reflexivity | apply used_plain].
+    + eapply cshape_cons'; [apply (cshape_plain u l1 a0 c c0); [lia | exact Hsimple | exact Hnl | apply Hsame]|].
+      apply (cshape_plain u l1 (IAssign var c) c c0); [lia | reflexivity | reflexivity | apply used_plain].
+  - (* SDefinition *)
+    destruct (frag_stmt_def _ _ _ _ _ _ _ _ _ Hfrag) as (Hnf & Hfresh & Hfe & ->).
+    cbn [statement] in Hlow. destruct g as [|g']; [discriminate|].
+    rewrite (definition_nonfun g' var value ctx Hnf) in Hlow. mon Hlow.
+    destruct a as [code_v rv]. cbn [fst snd] in *.
+    destruct (IHe g' (Nat.le_succ_diag_r g') k value ctx c code_v rv c' (var :: sc) l Hm Hfe) as (b1 & l1 & Hs1 & ? & ?).
+    pose proof Hs1 as (_ & ? & _).
+    eexists _, _.
+    eapply cshape_cons; [apply (cshape_plain u l (IDefine var) c c); [lia | reflexivity | reflexivity | apply used_plain]|].
+    eapply cshape_app; [exact Hs1|].
+    apply (cshape_plain u l1 (IAssign var rv) c' c'); [lia | reflexivity | reflexivity | apply used_plain].
+  - (* SLoop *)
+    rewrite frag_stmt_loop in Hfrag.
+    destruct (noexit_expr k condition && frag_expr pv sv bound k sc condition && is_some (frag_stmts pv sv bound k sc body))%bool eqn:Hc; [|discriminate Hfrag].
+    frag_split Hc. destruct (frag_stmts pv sv bound k sc body) as [scb|] eqn:Hfb; [|discriminate Hfr].
+    cbn [statement] in Hlow. mon Hlow. fresh_all.
+    destruct a as [code_c vc]. cbn [fst snd] in *.
+    apply lower_list_ok in Hm1 as (cs & Hmb & ->).
+    destruct (IHe g (Nat.le_refl g) k condition ctx c code_c vc c0 sc l Hm Hfr0) as (bc & l1 & Hsc & ? & ?).
+    destruct (IHs k body c0 (c0 + 1) cs c' sc scb l1 Hmb Hfb) as (bb & l2 & Hsb).
+    pose proof Hsc as (_ & ? & _). pose proof Hsb as (_ & ? & _).
+    eexists _, _.
+    replace ([ILoop; ILabel c0] ++ code_c ++ [IIf vc; IElse; IBreak; IEnd] ++ concat cs ++ [IEnd])
+      with (ILoop :: ILabel c0 :: (code_c ++ (IIf vc :: [] ++ IElse :: [IBreak] ++ [IEnd]) ++ concat cs) ++ [IEnd])
+      by (cbn [app]; rewrite <- !app_assoc; reflexivity).
+    apply cshape_loop.
+    eapply cshape_app'; [eapply cshape_widen; [exact Hsc | lia | lia]|].
+    eapply cshape_app'; [|eapply cshape_widen; [exact Hsb | lia | lia]].
+    eapply cshape_ifelse; [apply cshape_nil'; lia|].
+    apply (cshape_plain u l1 IBreak c c'); [lia | reflexivity | reflexivity | reflexivity].
+  - (* SBreak *)
+    cbn in Hlow. inversion Hlow; subst. eexists _, _.
+    apply (cshape_plain u l IBreak c' c'); [lia | reflexivity | reflexivity | reflexivity].
+  - (* SContinue *)
+    cbn in Hlow. inversion Hlow; subst. eexists _, _.
+    apply (cshape_plain u l (IGoto ctx) c' c'); [lia | reflexivity | reflexivity | reflexivity].
+  - (* SBlock *)
+    rewrite frag_stmt_block in Hfrag. cbn [statement] in Hlow. apply lower_list_ok in Hlow as (cs & Hm & ->).
+    destruct (frag_stmts pv sv bound k sc statements) as [sc1|] eqn:Hs; [|discriminate Hfrag].
+    eapply IHs; eassumption.
+  - (* SStatementExpression *)
+    rewrite frag_stmt_sexpr in Hfrag. cbn [statement] in Hlow. mon Hlow.
+    destruct (frag_expr pv sv bound k sc value) eqn:Hfe; [|discriminate Hfrag].
+    destruct a as [code_v rv]. cbn [fst] in *.
+    destruct (IHe g (Nat.le_refl g) k value ctx c code_v rv c' sc l Hm Hfe) as (b1 & l1 & Hs1 & _).
+    eexists _, _. exact Hs1.
+Qed.
+
+Lemma L_stmt_zero : L_stmt O.
+Proof. intros k s ctx c code c' sc sc' l H. discriminate. Qed.
+
+Theorem L_all g : forall g', (g' <= g)%nat -> L_expr pv sv bound u g' /\ L_stmt g'.
+Proof.
+  induction g as [|g IH]; intros g' Hg.
+  - assert (g' = O) by lia. subst. split; [apply L_expr_zero | apply L_stmt_zero].
+  - destruct (Nat.eq_dec g' (S g)) as [->|Hne]; [|apply IH; lia].
+    assert (He : forall g', (g' <= g)%nat -> L_expr pv sv bound u g') by (intros g'' H; apply IH; exact H).
+    assert (Hs : L_stmts g) by (apply L_stmts_of; apply IH; lia).
+    split; [apply L_expr_succ; [apply He; lia | exact Hs] | apply L_stmt_succ; assumption].
+Qed.
+
+Theorem L_expr_all g : L_expr pv sv bound u g.
+Proof. apply (L_all g g (Nat.le_refl g)). Qed.
+Theorem L_stmt_all g : L_stmt g.
+Proof. apply (L_all g g (Nat.le_refl g)). Qed.
+Theorem L_stmts_all g : L_stmts g.
+Proof. apply L_stmts_of, L_stmt_all. Qed.
+
 End Sim.
